@@ -314,7 +314,7 @@ class Machine:
         m = re.fullmatch(r'(-?\d+)_([iu](?:8|16|32|64|128|size))', txt)
         if m:
             w, s = INT_TY[m.group(2)]; return Int(w, s, int(m.group(1)))
-        m = re.fullmatch(r'([iu](?:8|16|32|64|128|size))::(MIN|MAX)', txt)
+        m = re.fullmatch(r'(?:core::num::<impl )?([iu](?:8|16|32|64|128|size))>?::(MIN|MAX)', txt)
         if m:
             w, sg = INT_TY[m.group(1)]
             return Int(w, sg, (-(1 << (w-1)) if sg else 0) if m.group(2) == 'MIN' else ((1 << (w-1)) - 1 if sg else (1 << w) - 1))
@@ -748,19 +748,35 @@ def m_replace_char(M, a, c):
 
 @model('core::str::<impl str>::parse')
 def m_parse_i64(M, a, c):
+    """<str>::parse::<i64>() on digits (an optional sign is handled; the lexer never passes one): 128-bit accumulation"""
     s = as_slice(a[0]); ds = s.items()
+    mt = re.search(r'::parse::<([iu](?:8|16|32|64|size))>', c)
+    W, SG = INT_TY[mt.group(1)] if mt else (64, True)
+    if 'parse::<' in c and not mt: raise Unsupported("str::parse into " + c[-40:])
     if not ds: return err(Agg('ParseIntError', 0, [Agg('IntErrorKind', 0, [])]))
-    acc = z3.IntVal(0)
+    neg = False
+    if len(ds) > 1 and not ds[0].sym() and ds[0].v in (0x2b, 0x2d): neg = ds[0].v == 0x2d; ds = ds[1:]
+    if len(ds) > 38: raise Unsupported("integer literal longer than 38 digits")
+    acc = None; cacc = 0
     for b in ds:
         isd = z3.And(z3.UGE(b.z(), 0x30), z3.ULE(b.z(), 0x39))
         if not M.branch(isd):
-            # '+'/'-' prefix handling omitted in prototype: lexer never passes them
             return err(Agg('ParseIntError', 0, [Agg('IntErrorKind', 1, [])]))
-        acc = acc * 10 + z3.BV2Int(b.z() - 0x30)
-    if M.branch(acc > 2**63 - 1):
-        return err(Agg('ParseIntError', 0, [Agg('IntErrorKind', 2, [])]))
-    v = z3.Int2BV(acc, 64)
-    return ok(Int(64, True, z3.simplify(v)))
+        if acc is None and not b.sym(): cacc = cacc * 10 + (b.v - 0x30); continue
+        if acc is None: acc = z3.BitVecVal(cacc, 128)
+        acc = acc * 10 + z3.ZeroExt(120, b.z() - 0x30)
+    if acc is None:
+        v = -cacc if neg else cacc
+        hi = ((1 << (W - 1)) - 1) if SG else (1 << W) - 1; lo = -(1 << (W - 1)) if SG else 0
+        if v > hi: return err(Agg('ParseIntError', 0, [Agg('IntErrorKind', 2, [])]))
+        if v < lo: return err(Agg('ParseIntError', 0, [Agg('IntErrorKind', 3 if SG else 1, [])]))
+        return ok(Int(W, SG, v))
+    lim = z3.BitVecVal((1 << (W - 1)) if neg else (((1 << (W - 1)) - 1) if SG else (1 << W) - 1), 128)
+    if neg and not SG: return err(Agg('ParseIntError', 0, [Agg('IntErrorKind', 1, [])]))
+    if M.branch(z3.UGT(acc, lim)):
+        return err(Agg('ParseIntError', 0, [Agg('IntErrorKind', 3 if neg else 2, [])]))
+    v = z3.Extract(W - 1, 0, acc)
+    return ok(Int(W, SG, z3.simplify(-v if neg else v)))
 ENUMS['IntErrorKind'] = ['Empty', 'InvalidDigit', 'PosOverflow', 'NegOverflow', 'Zero']
 @model('ParseIntError::kind')
 def m_pie_kind(M, a, c): return Ref(a[0].load().fields, 0)
